@@ -20,7 +20,7 @@ Definition ex_hist : list op :=
     OUnreserve 1; OCheck 2; OPodAdd 5 5 false (v3 1 0 0) cm; OCapacity (v3 30 40 0); OReserve 2;
     OPodDelete 2;
     OQuotaUpdate 3 (v3 9 20 0) cm (v3 2 4 0) (v3 0 0 0);
-    OQuotaFlipLend 5; OCapacity (v3 5 9 0); OAttempt 1; OAttempt 4 ].
+    OQuotaFlipLend 5; OPodRelabel 3; OCapacity (v3 5 9 0); OAttempt 1; OAttempt 4 ].
 
 Lemma ex_hist_wf_proof : forall rt chk,
   wf_hist (mkConfig rt chk) init_state None ex_hist = true
@@ -32,7 +32,7 @@ Lemma ex_hist_verdicts_proof :
   map (fun cfg => map o_status (filter (fun o => negb (o_status o =? -1) && negb (length (o_limits o) =? 0)%nat)
                                        (run cfg init_state ex_hist)))
       [mkConfig false false; mkConfig false true; mkConfig true false; mkConfig true true]
-  = [[0; 1; 0; 1; 0; 0; 1]; [0; 1; 0; 1; 0; 0; 1]; [0; 1; 0; 1; 0; 1; 1]; [0; 1; 0; 1; 0; 1; 1]].
+  = [[0; 1; 0; 1; 0; 0; 0]; [0; 1; 0; 1; 0; 0; 0]; [0; 1; 0; 1; 0; 1; 1]; [0; 1; 0; 1; 0; 1; 1]].
 Proof. vm_compute. reflexivity. Qed.
 
 (* the exclusions of theorem 4 are necessary: an already-bound pod replayed by the informer is
